@@ -145,6 +145,28 @@ Definition step (w : world) (op : list (list Z)) : world * result :=
       (w, [ok1; idx m; zs_of_cells (sp m)])
     else if code =? 8 then
       (w, [ok1; [if wfb cellv (k_valid k) dcell veqb m then 1 else 0]])
+    else if code =? 10 then
+      (* coverage counts: L1 (block order through block_to_cov), L0 *)
+      (w, [ok1; coverage_counts cellv (k_valid k) m; d_cov_counts cellv (k_valid k) dcell d])
+    else if code =? 11 then
+      (* fracdet numerators at r fine pixels per coarse: [11];[h];[r] ->
+         L1: rebuilt index, group counts over storage; L0: counts per coarse pixel *)
+      let r := gz op 2 0 in
+      (w, [ok1; fracdet_idx cellv m r; group_counts cellv (k_valid k) m r;
+           d_group_counts cellv (k_valid k) dcell d r])
+    else if code =? 12 then
+      (* per coverage pixel valid listing: [12];[h];[c] *)
+      let c := gz op 2 0 in
+      match valid_pixels_covpix cellv (k_valid k) dcell m c with
+      | Some l => (w, [ok1; l; d_valid_pixels_covpix cellv (k_valid k) dcell d c])
+      | None => (w, [[0; 2]; []; d_valid_pixels_covpix cellv (k_valid k) dcell d c])
+      end
+    else if code =? 13 then
+      (* single coverage pixel map: [13];[h];[h'];[c] *)
+      let h' := gz op 2 0 in let c := gz op 3 0 in
+      let m' := if covered cellv m c then single_covpix cellv m c
+                else make_empty cellv (ncov cellv m) (nfine m) (blank m) None in
+      (wset w h' (mkh k m' (d_single_covpix cellv dcell d c)), [ok1])
     else (w, err 3)
   end.
 
